@@ -476,3 +476,90 @@ Proof.
     + intros _. try rewrite Heqb. apply I6. cbn; lia.
     + split; intros; [lia|apply I7; cbn; lia].
 Qed.
+
+(* ------------------------------------------------------------------ deadlock freedom *)
+Lemma forallb_false_ex {A} (p : A -> bool) l : forallb p l = false -> exists j a, nth_error l j = Some a /\ p a = false.
+Proof.
+  induction l as [|x t IH]; cbn; intros H; try discriminate.
+  destruct (p x) eqn:Hx.
+  - destruct (IH H) as (j & a & Hn & Ha). exists (S j), a. auto.
+  - exists 0, x. auto.
+Qed.
+
+Lemma busy_worker_step s :
+  crashed s = false -> workers s <> [] -> Forall (fun x => is_exited x = false) (workers s) ->
+  find_idx is_idle (workers s) = None ->
+  exists e, internal e = true /\ step s e <> None.
+Proof.
+  intros Hc Hne HF Hi. destruct (workers s) as [|w0 t] eqn:Hw; try congruence.
+  inversion HF; subst. cbn in Hi. destruct w0; cbn in *; try discriminate.
+  - exists (EStart 0). split; auto. unfold step, step_start. rewrite Hc, Hw. cbn. discriminate.
+  - exists (EDone 0). split; auto. unfold step, step_done. rewrite Hc, Hw. cbn. discriminate.
+Qed.
+
+Lemma enabled_exists n w q s :
+  Inv n w q s -> 1 <= w -> stop s <> TNotCalled -> serve s <> SReturned ->
+  exists e, internal e = true /\ step s e <> None.
+Proof.
+  intros (I1 & I2 & I3 & I4 & I5 & I6 & I7 & I8 & I9 & I10 & I11 & I12 & L1 & L2 & L3) Hw Hstop Hserve.
+  assert (workers s <> []) as Hwne by (intros E; rewrite E in L2; cbn in L2; lia).
+  destruct (serve s) eqn:Hsv; cbn in *; try congruence.
+  - (* running *) destruct I1 as [E|E]; try congruence.
+    exists ERecvQuit. split; auto. unfold step. rewrite I11, Hsv, E. discriminate.
+  - (* got quit *)
+    destruct (find_idx (fun sb => negb (draining sb)) (subs s)) as [i|] eqn:F.
+    + exists EDrainSub. split; auto. unfold step, step_drainsub. rewrite I11, Hsv, F.
+      destruct (find_idx_some _ _ _ F) as [a [Ha _]]. rewrite Ha. discriminate.
+    + pose proof (find_idx_none _ _ F) as FD.
+      destruct (find_idx broker (subs s)) as [i|] eqn:FB.
+      * destruct (find_idx_some _ _ _ FB) as [a [Ha Hb]].
+        pose proof (forallb_nth_error _ _ _ _ FD Ha) as Hd. cbn in Hd. apply negb_true_iff in Hd. apply negb_false_iff in Hd.
+        exists (EBrokerUnsub i). split; auto. unfold step, step_brokerunsub. rewrite I11, Ha, Hd, Hb. discriminate.
+      * pose proof (find_idx_none _ _ FB) as FN.
+        exists EFlush. split; auto. unfold step. rewrite I11, Hsv.
+        assert (all_unsubbed (subs s) = true) as ->; try discriminate.
+        unfold all_unsubbed. apply forallb_forall. intros x Hx.
+        rewrite forallb_forall in FD, FN. specialize (FD x Hx). specialize (FN x Hx). cbn in FD.
+        apply negb_true_iff in FD. apply negb_false_iff in FD. rewrite FD, FN. reflexivity.
+  - (* flushed *) exists EBarrier. split; auto. unfold step, step_barrier. rewrite I11, Hsv.
+    destruct (count_registered (subs s) =? 0); discriminate.
+  - (* barrier set *)
+    destruct (fired s) eqn:Hf.
+    + exists EBarrierWait. split; auto. unfold step. rewrite I11, Hsv, Hf. discriminate.
+    + assert (refs s <> 0) as Hr.
+      { intros E. assert (3 <= 3) as H33 by lia. apply (I5 H33) in E. congruence. }
+      rewrite I3 in Hr. destruct (wsum_pos_ex _ _ Hr) as (i & sb & Hn & Hb).
+      unfold barw in Hb. destruct (bar sb) eqn:Hbar; try congruence.
+      assert (closed s = false) as Hcl.
+      { destruct (closed s) eqn:E; auto. assert (6 <= 3) by (apply I7; auto). lia. }
+      destruct (inh sb) as [m|] eqn:Hinh.
+      * destruct (has_reply m) eqn:Hrep.
+        2:{ exists (EDrop i). split; auto. unfold step, step_drop. rewrite I11, Hn, Hinh, Hrep. discriminate. }
+        destruct (length (workc s) <? qlen s) eqn:Hlt.
+        { exists (EEnq i). split; auto. unfold step, step_enq. rewrite I11, Hn, Hinh, Hrep, Hcl, Hlt. discriminate. }
+        destruct (find_idx is_idle (workers s)) as [j|] eqn:Fi.
+        2:{ apply busy_worker_step; auto. }
+        destruct (qlen s =? 0) eqn:Hq0.
+        { exists (EEnq i). split; auto. unfold step, step_enq. rewrite I11, Hn, Hinh, Hrep, Hcl, Hlt, Hq0, Fi. discriminate. }
+        destruct (workc s) as [|m' rest] eqn:Hwc.
+        { apply Nat.ltb_ge in Hlt. cbn in Hlt. apply Nat.eqb_neq in Hq0. lia. }
+        destruct (find_idx_some _ _ _ Fi) as [a [Ha Hia]]. destruct a; try discriminate.
+        exists (ETake j). split; auto. unfold step, step_take. rewrite I11, Ha, Hwc. discriminate.
+      * exists (EPop i). split; auto. unfold step, step_pop. rewrite I11, Hn, Hinh.
+        destruct (pre sb); [rewrite Hbar; discriminate|destruct (registered sb); discriminate].
+  - (* barrier done *) destruct I1 as [E|E].
+    + exists EStopClose. split; auto. unfold step. rewrite I11, E. discriminate.
+    + exists ESendDone. split; auto. unfold step. rewrite I11, Hsv, E. discriminate.
+  - (* done sent *) exists ECloseWorkC. split; auto. unfold step. rewrite I11, Hsv. discriminate.
+  - (* closed *)
+    destruct (forallb is_exited (workers s)) eqn:Hall.
+    + exists EWait. split; auto. unfold step. rewrite I11, Hsv, Hall. discriminate.
+    + destruct (forallb_false_ex _ _ Hall) as (j & a & Hn & Ha).
+      assert (closed s = true) as Hcl by (apply I7; lia).
+      destruct a; try discriminate.
+      * destruct (workc s) as [|m' rest] eqn:Hwc.
+        -- exists (EExit j). split; auto. unfold step, step_exit. rewrite I11, Hn, Hwc, Hcl. discriminate.
+        -- exists (ETake j). split; auto. unfold step, step_take. rewrite I11, Hn, Hwc. discriminate.
+      * exists (EStart j). split; auto. unfold step, step_start. rewrite I11, Hn. discriminate.
+      * exists (EDone j). split; auto. unfold step, step_done. rewrite I11, Hn. discriminate.
+Qed.
